@@ -941,6 +941,7 @@ static void run_fapdu(void) {
 
 int main(void) {
   setvbuf(stdout, NULL, _IOFBF, 1 << 16);
+  coap_set_log_level(fa_loglevel());
   signal(SIGPIPE, SIG_IGN);
   while (next_case(stdin)) {
     if (vntok == 0) {
